@@ -246,6 +246,8 @@ def generate(rng: random.Random, *, features=None) -> Workflow:
                 off = rng.choice([-1, -1, -2])
         else:
             off = 0 if r < 0.7 or not cyc else rng.choice([-1, -2] + ([1] if f["future"] else []))
+        if f["absolute"] and rng.random() < 0.35 and order[t] < order[rhs]:
+            return atom(t, 0, "succeeded" if t not in w.custom or not w.custom[t] or rng.random() < 0.6 else "x", True)
         outs = ["succeeded", "succeeded", "succeeded"]
         if t in w.succ_opt:
             outs += ["failed", "failed"]
